@@ -151,6 +151,10 @@ def gen_c11(rng, tier):
                         continue
                     if path == 1 and pos == 8 and v > 0x7f:
                         continue
+                    # string items on the stream path: a changed count misaligns the items and serde<std::string>::deserialize(istream)
+                    # reserves whatever u32 length it then reads (common/serde.hpp; recorded finding of the serde family)
+                    if path == 1 and kind == 2 and pos in (8, 9, 10, 11) and v != 0:
+                        continue
                     ops.append([5, 0, path, -1, pos, v, 0])
         for k in range(1, len(ops), 150):
             cases.append(dict(id='ficor%d_%s_%d' % (ci, name, k), ops=[base] + ops[k:k + 150], tags=['corrupt', name], kind='corrupt'))
@@ -203,18 +207,8 @@ def oracle(case, irecs, mrecs):
             if R[:1] != [1]:
                 fails.append(dict(sig='fi_reserialize', what='the restored sketch does not serialize (%s)' % R[:3], op_index=i))
             elif not purged_empty:
-                img2 = R[1:]
-                kind = case['ops'][0][2]
-                def split(img):
-                    n = content['n']
-                    if n == 0: return img, []
-                    ws = [tuple(img[32 + 8 * j:40 + 8 * j]) for j in range(n)]
-                    its = []; p = 32 + 8 * n
-                    for j in range(n):
-                        ln = 8 if kind == 0 else 4 + int.from_bytes(bytes(img[p:p + 4]), 'little')
-                        its.append(tuple(img[p:p + ln])); p += ln
-                    return img[:32], sorted(zip(its, ws))
-                if len(img2) != L or split(img2) != split(image):
+                # R = 1, the first 32 bytes of the restored sketch's image, its counters sorted by item
+                if R[1:] != image[:32] + show_of(content)[5:]:
                     fails.append(dict(sig='fi_reserialized_differs', what='the restored sketch re-serializes to a different image (beyond the order of the counters)', op_index=i))
         elif op[0] == 6:
             if R[:1] == [1] and -7 in R:
@@ -252,5 +246,16 @@ RULE_C11 = ('every strict prefix of the images of empty / single / exact / estim
             'allocation request above 256 MiB is reported as such (R -9), never as a rejection; non-trivial = every case')
 
 MUTATIONS = '''
- (filled in by the mutation run; see the report)
+ scratch worktree = /repo + fixes/11_fi_stream_reader_checks.patch, VERIF_REPO, the family alone under C09 / C10 / C11 (VIOLATION counts):
+ c1 serialize(bytes) writes offset before total weight                         C09 C10 C11  (-4 bytes != stream; image != Coq writer)
+ c2 serialize(ostream) sets only one of the two "empty" flag bits               C09 C10 C11
+ c3 deserialize(bytes) does not restore the offset                              C09 C10 C11  (fi_roundtrip; Coq reader disagrees)
+ c4 get_serialized_size_bytes 8 too large                                       C09 C10 C11  (-5; trailing zeros in the image)
+ c5 deserialize(bytes) without ensure_minimum_memory for the weights            C11          (ASan heap-buffer-overflow on prefixes)
+ c6 deserialize(istream) without the stream test after the counts (= unrepaired) C11         (R -9 allocation over cap / fi_prefix_accepted)
+ c7 check_size without lg_cur <= lg_max                                         C11          (corrupted lg bytes accepted; Coq reader rejects)
+ c8 deserialize(istream) takes "empty" from flag bit 0 only                     C11          (flags := 4 accepted as non-empty)
+ harmless, exit 0 for all three: h1 stream writer emits the unused 16 bits as two bytes; h2 flags byte built with + instead of |;
+ h3 deserialize(bytes) copies the weights in a loop; h4 deserialize(bytes) re-inserts the counters in reverse order (the restored
+ table order is unspecified: re-serialization is compared in canonical form)
 '''
